@@ -1,6 +1,9 @@
 package props
 
 import (
+	"errors"
+	"io"
+	"testing/iotest"
 	"bytes"
 	"fmt"
 	"image"
@@ -241,6 +244,27 @@ func checkC17(c *c17Case, o *core.Obs) error {
 				return fmt.Errorf("prefix of %d/%d bytes read from a plain io.Reader decodes without error to a different picture (layout %s)", n, len(full), layout)
 			}
 		}
+		// the same prefix from a source that fails instead of ending (a dropped connection, a short file on a failing
+		// disk): the bytes delivered are the same, so the answer must again be an error or the complete file's answer
+		if n%3 == 0 {
+			er := func() io.Reader { return io.MultiReader(bytes.NewReader(pre), iotest.ErrReader(errInjectedRead)) }
+			if img3, err3 := webp.Decode(er()); err3 == nil {
+				v := viewOf(img3, nil)
+				if v.Type != fView.Type || v.Bounds != fView.Bounds || !bytes.Equal(v.Pix, fView.Pix) {
+					return fmt.Errorf("%d/%d bytes followed by a read error: Decode returns a different picture without error (layout %s)", n, len(full), layout)
+				}
+			}
+			if cfg, err := webp.DecodeConfig(er()); err == nil {
+				if cfg.Width != fCfg.Width || cfg.Height != fCfg.Height || cfg.ColorModel != fCfg.ColorModel {
+					return fmt.Errorf("%d/%d bytes followed by a read error: DecodeConfig reports %dx%d, complete file %dx%d (layout %s)", n, len(full), cfg.Width, cfg.Height, fCfg.Width, fCfg.Height, layout)
+				}
+			}
+			if ft, err := webp.GetFeatures(er()); err == nil {
+				if !reflect.DeepEqual(*ft, *fFeat) {
+					return fmt.Errorf("%d/%d bytes followed by a read error: GetFeatures reports %+v, complete file %+v (layout %s)", n, len(full), *ft, *fFeat, layout)
+				}
+			}
+		}
 		if cfg, err := webp.DecodeConfig(rk.New(pre)); err == nil {
 			if cfg.Width != fCfg.Width || cfg.Height != fCfg.Height || cfg.ColorModel != fCfg.ColorModel {
 				return fmt.Errorf("DecodeConfig (plain io.Reader) on a %d/%d-byte prefix reports %dx%d, complete file %dx%d (layout %s)", n, len(full), cfg.Width, cfg.Height, fCfg.Width, fCfg.Height, layout)
@@ -270,6 +294,8 @@ func checkC17(c *c17Case, o *core.Obs) error {
 	o.NonTrivial("%s|%s|%s", c.Kind, layout, fView.Type)
 	return nil
 }
+
+var errInjectedRead = errors.New("verif: injected read failure")
 
 func modelName(m any) string { return fmt.Sprintf("%p", m) }
 
